@@ -388,7 +388,7 @@ def report(chk: Check, conf, pairs, origin):
     v = small[0][1] if small else None
     if kind == "spec":
         # a value containing an integer beyond the interpreter's int -> str limit that cannot be READ back: the repr check
-        # of Serializer._decode (candidate defect, proposed_fixes/pending/C09_repr_check_must_not_fail_the_read.diff)
+        # of Serializer._decode (candidate defect, proposed_fixes/D58_C09_repr_check_must_not_fail_the_read.diff)
         huge = any(S.has_huge_int(x) for _, x in small) and any("ValueError" in t for _, t in probs)
         chk.violation(f"serialization does not round-trip under {conf.name()}: {probs[0][1]}"[:600], replay,
                       signature="C09:repr-check-raises-on-read" if huge else f"roundtrip:{type(v).__name__}")
